@@ -12,9 +12,12 @@ import random
 from harness import core, sexp
 
 PATTERNS = ['/a', '/a/', '/a/<x>', '/a/<x:int>', '/<y>', '/<y>/', '/a/b', '/<p*>', '/b/<q+>/', '/c/<z?>',
-            '/a/<x>/c', '/']
+            '/a/<x>/c', '/', '/n/<ns+int>', '/a/<f:float>']
 PATHS = ['/', '/a', '/a/', '/a//', '/a/1', '/a/b', '/a/b/', '/a/x/c', '/b', '/b/1/2', '/b/1/2/', '/b//1/', '/c',
-         '/c/', '/c/z', '/zz', '/zz/', '/a/1/', '//a', '/A', '/a/1x']
+         '/c/', '/c/z', '/zz', '/zz/', '/a/1/', '//a', '/A', '/a/1x',
+         # segments the lexical regexes of int/float admit but the conversion rejects (sign, blank, digits; an empty
+         # segment inside a typed multi binding): no match, never an exception
+         '/a/+ 1', '/a/- .5', '/n/1//2', '/n/3/4', '/a/' + '9' * 4400]
 REQ_METHODS = ['GET', 'GET', 'HEAD', 'POST', 'PUT', 'get', 'FOO', 'DELETE', 'post']
 METHOD_SETS = [None, None, ['GET'], ['POST'], ['get', 'put'], ['POST', 'DELETE'], ['HEAD'], [], ['GET', 'POST']]
 BEHAVIOURS = ['ok', 'ok', 'ok', 'ctx', 'nonresp', 'none', 'raise404nb', 'ret403nb', 'raise409', 'ret503',
@@ -182,7 +185,12 @@ def impl(case):
     order = [next(k for k, r in enumerate(routes) if br.unbound_route is r) for br in app.routes]
     obs = {'construct': 'ok', 'order': order, 'requests': []}
     for method, path, accept in case['requests']:
-        bits = [br.match_path('/' + path.lstrip('/')) is not None for br in app.routes]
+        bits = []
+        for br in app.routes:
+            try:
+                bits.append(br.match_path('/' + path.lstrip('/')) is not None)
+            except Exception:
+                bits.append(False)        # the request below shows what the application does with it
         qs = ['q=1', '', 'x=\xff\xfe', 'a=%zz&b=+'][(len(path) + len(method)) % 4]      # incl. raw non-UTF-8 bytes (F13)
         r = wsgi.get(app, path, method=method, query=qs, headers={'Accept': accept} if accept else None)
         if r.exc is not None:
